@@ -122,7 +122,7 @@ _alloc = itertools.count(1)
 
 
 class Engine:
-    def __init__(self, module, contract=None, registry=None, consts=None, timeout=3000):
+    def __init__(self, module, contract=None, registry=None, consts=None, timeout=600):
         self.T = table()
         self.module = module              # relpath of the module the function lives in (name resolution)
         self.contract = contract
